@@ -22,6 +22,7 @@
 #include <unistd.h>
 
 #include <iostream>
+#include <sstream>
 
 #include "sched.hpp"
 
@@ -42,6 +43,9 @@ struct harness {
   // lines of the program text that may be dropped while shrinking
   virtual bool is_op_line(const std::string& line) { return !line.empty() && line[0] == 't'; }
   virtual std::string default_prop() = 0;
+  // the property a livelock verdict (an operation that has not returned after the step budget plus the fair
+  // continuation) violates in this harness; the other properties of the harness report it as inconclusive
+  virtual std::string livelock_property() { return "C14"; }
 };
 
 constexpr int EXIT_VIOLATED = 42, EXIT_DEADLOCK = 43, EXIT_STEPLIMIT = 44, EXIT_LIVELOCK = 45;
@@ -313,9 +317,10 @@ inline int sched_main(int argc, char** argv, harness& H) {
       for (std::uint32_t i = 0; i < slog->n_overrides && i < shared_log::MAX_OV; ++i)
         ov.emplace_back(slog->ov_step[i], slog->ov_thread[i]);
     }
-    if (code == EXIT_LIVELOCK && prop != "C14") {
-      // a never-returning operation is C14's subject; for the other properties nothing can be evaluated
-      inconclusive.push_back("program " + std::to_string(slog->program_index) + ": livelock verdict (decided by check C14)");
+    if (code == EXIT_LIVELOCK && prop != H.livelock_property()) {
+      // a never-returning operation is the subject of one property per harness; for the others nothing can be evaluated
+      inconclusive.push_back("program " + std::to_string(slog->program_index) + ": livelock verdict (decided by check " +
+                             H.livelock_property() + ")");
       first = slog->program_index + 1;
       if (++respawns > 50) break;
       continue;
@@ -435,6 +440,30 @@ inline int sched_main(int argc, char** argv, harness& H) {
         return rc;
       }, &piped2, true);
       if (!piped2.empty()) msg = piped2;
+    }
+    if (code >= 1000 || (code != EXIT_VIOLATED && code != EXIT_DEADLOCK && code != EXIT_STEPLIMIT && code != EXIT_LIVELOCK)) {
+      // crash: run once more with stderr kept, and quote the assertion / sanitizer line in the replay file
+      const std::string ef = fail_dir + "/.crash_stderr_" + std::to_string(getpid());
+      std::fflush(nullptr);
+      const pid_t cp = fork();
+      if (cp == 0) {
+        const int efd = open(ef.c_str(), O_WRONLY | O_CREAT | O_TRUNC, 0644);
+        const int dn = open("/dev/null", O_WRONLY);
+        if (efd >= 0) dup2(efd, 2);
+        if (dn >= 0) dup2(dn, 1);
+        H.setup_process();
+        _exit(exec_once(program, ov, nullptr));
+      }
+      int stt = 0;
+      waitpid(cp, &stt, 0);
+      std::istringstream es(verif::read_file(ef));
+      std::string ln, reason;
+      while (std::getline(es, ln))
+        if (reason.empty() && (ln.find("Assertion") != std::string::npos || ln.find("ERROR: AddressSanitizer") != std::string::npos ||
+                               ln.find("runtime error") != std::string::npos || ln.find("ERROR: LeakSanitizer") != std::string::npos))
+          reason = ln;
+      std::remove(ef.c_str());
+      if (!reason.empty()) msg += ": " + (reason.size() > 300 ? reason.substr(0, 300) : reason);
     }
     found_path = fail_dir + "/" + prop + "_seed" + std::to_string(seed) + "_prog" + std::to_string(slog->program_index) + ".txt";
     verif::write_file(found_path, make_replay_text(program, ov, "property " + prop + " violated: " + msg + " [" + describe_code(code) +
